@@ -866,11 +866,15 @@ def oracle_module(ck: Check, camp, inp: dict, code: str, kind: str, executable: 
             "reuse_and_collapse": bool(inp.get("opts", {}).get("reuse_model") and inp.get("opts", {}).get("collapse_root_models"))}
     doc = inp.get("document")
     definitions = set((doc.get("definitions") or {}) if isinstance(doc, dict) else ())
+    definition_parts = definitions | {part for d in definitions for part in d.split(".")}  # `pkg.Name`: module `pkg`, class `Name`
+    # named schemas in other modules of a package (`pkg.Name`) whose classes --collapse-root-models may all remove: the output is one module again
+    base["collapse_across_modules"] = bool(inp.get("opts", {}).get("collapse_root_models") and any("." in d for d in definitions))
 
     def binding_failure(mech: str, name: str, where: str, observed: str, seen: str, use: str, hider=None) -> None:
         c = dict(base, mechanism=mech, name=name, name_class=name_class(name, code), use=use, seen=seen,
                  alias_pass=name.endswith("_aliased") or f"{name} as {name}_aliased" in code, text_context=text_context(name, code),
-                 unbound_is_definition=name in definitions)  # the unbound name is a named schema of the document (its class is not in the module)
+                 # the unbound name is a named schema of the document (or, for `pkg.Name`, its module / its class): the class is not in the module
+                 unbound_is_definition=name in definition_parts)
         if hider:
             c["hider"] = hider
         failures.append((c, f"{observed} [{where}]"))
@@ -1349,6 +1353,29 @@ def search_after_break(ck: Check) -> None:
     import-relevant shapes (unions, optionals, containers, literals) under every spelling."""
     camp = ck.campaign("search: documents × every spelling option vector through the module oracle")
     rng = ck.rng.fork("search")
+    # the documents on which a correspondence broke (e.g. an undisciplined import history), in every output kind and under the
+    # neighbouring option vectors: the disagreement names the mechanism, the oracle needs a module in which it unbinds a name
+    seen_docs = []
+    for d in ck.disagreements:
+        i = d.input if isinstance(d.input, dict) else {}
+        if "document" in i and i["document"] not in seen_docs and len(seen_docs) < 12:
+            seen_docs.append(i["document"])
+            o = dict(i.get("opts") or {})
+            for kind in e2e.MODEL_KINDS:
+                for extra in ({}, {"field_constraints": True}, {"field_constraints": True, "use_annotated": True}, {"use_standard_collections": True, "use_union_operator": True}):
+                    e2e_case(ck, camp, i["document"], kind, {**o, **extra}, i.get("target"), i.get("input_file_type", "jsonschema"), ["search:disagreeing_document"],
+                             modular=bool(i.get("modular")))
+                    if ck.failures:
+                        return
+    # chains of root models: few providers of each import, every leaf type
+    chain_rng = ck.rng.fork("search_chains")
+    for n in range(300):
+        doc, feats = schemagen.chain_document(chain_rng)
+        opts = schemagen.chain_options(chain_rng)
+        opts["collapse_root_models"] = True
+        e2e_case(ck, camp, doc, e2e.MODEL_KINDS[n % 5], opts, None, "jsonschema", feats)
+        if ck.failures:
+            return
     docs = [
         {"type": "object", "required": ["a", "b"], "properties": {"a": {"type": ["array", "null"], "items": {"type": "string"}}, "b": {"type": "integer"}, "c": {"enum": ["x", "y"]},
                                                                    "d": {"type": "object", "additionalProperties": {"type": "integer"}}, "e": {"anyOf": [{"type": "integer"}, {"type": "string"}]},
@@ -1379,7 +1406,7 @@ def known_findings(ck: Check) -> None:
         camp = probe.campaign("witness")
         run_prelude(w.get("prelude"))
         e2e_case(probe, camp, w["document"], w["model"], w.get("opts", {}), w.get("target"), w.get("input_file_type", "jsonschema"), instance=w.get("instance"),
-                 prelude=w.get("prelude"))
+                 prelude=w.get("prelude"), modular=bool(w.get("modular")))
         if any(match_finding([f], fl.classification) for fl in probe.failures):
             ck.known(f["id"], f["what"])
         else:  # the witness no longer fails the way the finding says: the finding is stale (repaired, or its matcher is wrong)
